@@ -204,6 +204,9 @@ def run(ctx):
             bytype.setdefault(lit_key(q), []).append(q)
         lits = [qs[0] for _, qs in sorted(bytype.items())]      # one literal per (const | field) x type ...
         lits = [q for i, q in enumerate(lits) if (i + old) % 2 == 0]   # ... and of those every other one, by seed
+    else:
+        random.Random(old * 31 + 7).shuffle(lits)
+        lits = lits[:320]      # (all 669 are parsed by C10; here each costs four compilations and a Go build)
     ctx.extra["focus_consts_programs"] = len(lits)
     litkeys = {q: lit_key(q) for q in lits}
     focusprogs += lits
